@@ -708,12 +708,23 @@ class Exec:
             return self.bfind(st, container, item).term >= 0
         if isinstance(container, VBDict) and container.kelem == "strseq" and isinstance(item, (VSeq, VTup, VPyList)):
             return self.bfind(st, container, self.as_seq(item, S.Str)).term >= 0
+        if isinstance(container, VBDict) and container.kelem == "rankseq" and isinstance(item, (VSeq, VTup, VPyList, VOpt)):
+            return self.bfind(st, container, self.rank_key(item)).term >= 0
         raise OutOfReach(f"membership in {container!r}")
+
+    def rank_key(self, item):
+        """a ranking used as a dict key (a value known not to be None on this path)"""
+        if isinstance(item, VOpt):
+            item = item.val
+        return self.as_seq(item, S.CSet)
 
     def bfind(self, st, d, key):
         """index of the first stored key k with k.__eq__(probe) (stored key is the left operand, S-DICT), -1 if none;
         `beq` is the specification of Ballot.__eq__ (proved equal to the real method's contract)"""
         from .calls import apply_spec
+        if d.kelem == "rankseq":
+            sp = self.ctx.registry.specs["rfind"]
+            return apply_spec(self, sp, [VSeq(d.keys, S.Seq(S.CSet)), VNum(z3.Length(d.keys), "int"), key], st)
         if d.kelem == "strseq":
             # keys are tuples of strings: found = first stored key equal to the probe (tuple equality is structural)
             sp = self.ctx.registry.specs["sfind"]
@@ -955,9 +966,11 @@ class Exec:
                 self.need(st, False, "IndexError", node, "tuple index")
                 raise Raise()
             return base.items[k]
-        if isinstance(base, VBDict) and (isinstance(idx, VRec) or base.kelem == "strseq"):
+        if isinstance(base, VBDict) and (isinstance(idx, VRec) or base.kelem in ("strseq", "rankseq")):
             if base.kelem == "strseq":
                 idx = self.as_seq(idx, S.Str)
+            if base.kelem == "rankseq":
+                idx = self.rank_key(idx)
             f = self.bfind(st, base, idx).term
             self.need(st, f >= 0, "KeyError", node, "dict key (Ballot)")
             return VNum(base.vals[f], "real")
@@ -1303,7 +1316,9 @@ class Exec:
             idx = self.eval(target.slice, st)
             if cur.kelem == "strseq":
                 idx = self.as_seq(idx, S.Str)
-            if (isinstance(idx, VRec) or cur.kelem == "strseq") and isinstance(v, VNum):
+            if cur.kelem == "rankseq":
+                idx = self.rank_key(idx)
+            if (isinstance(idx, VRec) or cur.kelem in ("strseq", "rankseq")) and isinstance(v, VNum):
                 from .calls import apply_spec
                 f = self.bfind(st, cur, idx).term
                 x = VNum(to_real(v), "real")
